@@ -221,11 +221,11 @@ def explore(ctx):
                               f'(all cvise_extra_* directories already exist)', {'scenario': sc, 'kind': 'shim'})
             each.append((driver.coq_scenario(sc, o.perm), o.out, sc))
     # a helper that fails for every candidate while pass bugs are silenced (--shaddap): the round still ends at the give-up limit
-    for silent in (True, False):
+    for silent, opk in ((True, 'err'), (False, 'err'), (False, 'raise'), (True, 'raise')):      # ('raise': the transformation itself fails in the worker)
         for g in (2, 4):
             for nn in (1, 3):
                 sc = {'files': [('f0.c', 'abc')], 'rules': [([], 0)],
-                      'passes': [{'key': 1, 'ops': [('err',)] * (g + nn + 12), 'aos': 0, 'maxt': None, 'newfix': None}],
+                      'passes': [{'key': 1, 'ops': [(opk,)] * (g + nn + 12), 'aos': 0, 'maxt': None, 'newfix': None}],
                       'cfg': {'N': nn, 'giveup': g, 'silent': silent, 'no_cache': True}, 'sched': [rnd.randint(0, 7) for _ in range(40)]}
                 o = driver.run_scenario(sc, ctx.tmp)
                 ctx.evaluations += 1
@@ -235,7 +235,7 @@ def explore(ctx):
                     continue
                 ps = o.passes[0]
                 if ps['executed'] > g + nn + 1:
-                    ctx.violation('give-up-skipped', f'{ps["executed"]} candidates were started although every one ended in a helper error '
+                    ctx.violation('give-up-skipped', f'{ps["executed"]} candidates were started although every one ended in a {"helper error" if opk == "err" else "failure of the transformation in the worker"} '
                                   f'(shaddap={silent}, give-up limit {g}, N={nn}: at most {g + nn + 1})', {'scenario': sc, 'kind': 'shim'})
                 each.append((driver.coq_scenario(sc, o.perm), o.out, sc))
     # ... and a silenced helper error in the middle of a sweep does not cost the candidates after it
